@@ -368,6 +368,17 @@ def gen_c06(rng, idx, tier, faults):
     reuse = refit and len(lanes) <= 2 and rng.random() < 0.35 and xs.get("storage", "C") not in ("readonly", "memmap")
     if reuse:
         lanes = lanes[:1]
+    # the caller reuses the buffer it fitted on and continues the chain on an equal-valued copy
+    moved_at = None
+    if not reuse and len(sched) > 1 and xs.get("storage", "C") not in ("readonly", "memmap") and rng.random() < 0.12:
+        lanes = lanes[:1]
+        moved_at = rng.randrange(1, len(sched))
+        xs["storage"] = rng.choice(["C", "F", "F", "view"])
+        heap["X0c"] = dict(xs)
+        heap["X0c"]["storage"] = rng.choice(["C", "F", "view"])
+    shrink_to = None
+    if sched[-1] >= 3 and sched[-1] < cap and rng.random() < 0.08:
+        shrink_to = (rng.randint(1, sched[-1] - 1), rng.randint(sched[-1] + 1, cap))
     crash = None
     if faults and not all128 and rng.random() < 0.12:
         crash = {"where": rng.choice(["start", "before_refit"]) if refit else "start",
@@ -394,9 +405,21 @@ def gen_c06(rng, idx, tier, faults):
                     ops.append({"op": "SET", "obj": name, "params": {"full_fraction": ff_set[1]}})
                 if restart_at == si:
                     ops.append({"op": "RESTART", "obj": name, "mode": restart_mode})
-            ops.append({"op": "FIT", "obj": name, "X": "X0", "y": yn, "warm": si > 0, "env": {"clock": clk}})
+            if moved_at is not None and si == moved_at:
+                rec = {k: v for k, v in xs.items() if k not in ("storage",)}
+                rec["seed"] = _seed(rng)
+                ops.append({"op": "MUTATE", "h": "X0", "recipe": rec})
+            xcur = "X0c" if (moved_at is not None and si >= moved_at) else "X0"
+            ops.append({"op": "FIT", "obj": name, "X": xcur, "y": yn, "warm": si > 0, "env": {"clock": clk}})
             if read_after == si:
                 ops.append({"op": "READ", "obj": name, "method": read_m[0], "kwargs": read_m[1]})
+        if shrink_to is not None:
+            # a continuation that asks for fewer selections, then one that asks for more again
+            xlast = "X0c" if moved_at is not None else "X0"
+            ops.append({"op": "SET", "obj": name, "params": {"n_to_select": shrink_to[0]}})
+            ops.append({"op": "FIT", "obj": name, "X": xlast, "y": yn, "warm": True, "shrink": True, "env": {"clock": clk}})
+            ops.append({"op": "SET", "obj": name, "params": {"n_to_select": shrink_to[1]}})
+            ops.append({"op": "FIT", "obj": name, "X": xlast, "y": yn, "warm": True, "env": {"clock": clk}})
         if refit and reuse:
             rec = {k: v for k, v in xs.items() if k not in ("storage",)}
             rec["seed"] = _seed(rng)
@@ -404,6 +427,8 @@ def gen_c06(rng, idx, tier, faults):
             refit_X_eff = "X0"
         else:
             refit_X_eff = refit_X
+        if moved_at is not None and refit_X_eff == "X0":
+            refit_X_eff = "X0c"
         if refit and crash and crash["where"] == "before_refit":
             ops.append({"op": "FIT", "obj": name, "X": refit_X_eff, "y": None if refit_X_eff == "X1" else yn, "warm": crash["warm"],
                         "env": {"clock": clk, "interrupt": {"exc": crash["exc"], "at": crash["at"]}}})
